@@ -129,21 +129,26 @@ Definition shutdown_regs (rec : app -> list event * option err) (f : oracle) :=
 Fixpoint shutdown_app (f : oracle) (a : app) : list event * option err :=
   match a with App regs => shutdown_regs (shutdown_app f) f regs end.
 
-(* the state of the k-th sub-application is the k-th entry of xs; a missing entry is a
-   CleanupContext that never recorded anything *)
+(* errors collected from several steps: none, the single one, or CleanupError *)
+Definition collect (es : list err) : option err :=
+  match es with [] => None | [e] => Some e | _ => Some ErrMulti end.
+Definition opt_list {A} (o : option A) : list A := match o with Some a => [a] | None => [] end.
+
+(* Application.cleanup() with on_cleanup frozen (repaired behaviour, /repo ee73039): EVERY receiver is awaited,
+   errors are collected; the receiver of a sub-application calls subapp.cleanup().
+   The state of the k-th sub-application is the k-th entry of xs; a missing entry is a CleanupContext that
+   never recorded anything. *)
 Definition cleanup_regs (rec : app -> xt -> list event * option err) (f : oracle) :=
-  fix go (rs : list reg) (xs : list xt) : list event * option err :=
+  fix go (rs : list reg) (xs : list xt) : list event * list err :=
     match rs with
-    | [] => ([], None)
+    | [] => ([], [])
     | RCl u :: t =>
-      if f (SCleanup u) then ([ECl u false], Some (ErrStep (SCleanup u)))
-      else let '(l, r) := go t xs in (ECl u true :: l, r)
+      let '(l, es) := go t xs in
+      if f (SCleanup u) then (ECl u false :: l, ErrStep (SCleanup u) :: es) else (ECl u true :: l, es)
     | RSub b :: t =>
       let '(lb, rb) := rec b (hd xt_empty xs) in
-      match rb with
-      | Some e => (lb, Some e)
-      | None => let '(l, r) := go t (tl xs) in (lb ++ l, r)
-      end
+      let '(l, es) := go t (tl xs) in
+      (lb ++ l, opt_list rb ++ es)
     | _ :: t => go t xs
     end.
 
@@ -152,16 +157,35 @@ Fixpoint cleanup_app (f : oracle) (a : app) (x : xt) : list event * option err :
   match a with
   | App regs =>
     let '(l0, r0) := ctx_cleanup f (xt_exits x) in
-    match r0 with
-    | Some e => (l0, Some e)
-    | None => let '(l1, r1) := cleanup_regs (cleanup_app f) f regs (xt_subs x) in (l0 ++ l1, r1)
-    end
+    let '(l1, es) := cleanup_regs (cleanup_app f) f regs (xt_subs x) in
+    (l0 ++ l1, collect (opt_list r0 ++ es))
   end.
 
-(* Application.cleanup(): the whole signal when on_cleanup is frozen (AppRunner._make_server got past
-   startup()), otherwise only this application's own cleanup context *)
+(* Application._cleanup_started_contexts() (on_cleanup not frozen: start-up failed; /repo 14e69de): this
+   application's cleanup context, then recursively the sub-applications' ones (self._subapps, add_subapp order);
+   no on_cleanup receiver of the user runs *)
+Definition started_regs (rec : app -> xt -> list event * option err) :=
+  fix go (rs : list reg) (xs : list xt) : list event * list err :=
+    match rs with
+    | [] => ([], [])
+    | RSub b :: t =>
+      let '(lb, rb) := rec b (hd xt_empty xs) in
+      let '(l, es) := go t (tl xs) in
+      (lb ++ l, opt_list rb ++ es)
+    | _ :: t => go t xs
+    end.
+
+Fixpoint started_cleanup (f : oracle) (a : app) (x : xt) : list event * option err :=
+  match a with
+  | App regs =>
+    let '(l0, r0) := ctx_cleanup f (xt_exits x) in
+    let '(l1, es) := started_regs (started_cleanup f) regs (xt_subs x) in
+    (l0 ++ l1, collect (opt_list r0 ++ es))
+  end.
+
+(* Application.cleanup() *)
 Definition app_cleanup (f : oracle) (a : app) (x : xt) (frozen : bool) : list event * option err :=
-  if frozen then cleanup_app f a x else ctx_cleanup f (xt_exits x).
+  if frozen then cleanup_app f a x else started_cleanup f a x.
 
 (* ---- BaseRunner.cleanup(): the translated phase sequence; phases 1-3 only if setup succeeded;
    chained by try/finally when runner_cleanup_finally (repaired behaviour, /repo 9bf51ac) ---- *)
